@@ -61,11 +61,14 @@ fn problem(k: usize, backward: bool) -> (Prob, f64) {
         // a singularity at the end of the interval, approached from a start that is far from it on the scale of
         // the end point: y' = -y/x from x0 = -1 (reflected: +1) into xend = 0, y = -1/x
         10 => (mk("y'=-y/x into the singularity at xend=0", 1, vec![1.0], Arc::new(|t, y, d| d[0] = -y[0] / t)), 1.0),
+        // so stiff that only the stiffness detectors of DOPRI5 / DOP853 bound the work (about a thousand steps
+        // instead of span * 1e7 / 3.3): they have to work in both directions
+        11 => (mk("stiff decay 1e7 (work bounded by the stiffness detector)", 1, vec![0.0], Arc::new(|t, y, d| d[0] = -1e7 * (y[0] - t.cos()))), 1.0),
         5 => (mk("rhs discontinuous in t", 1, vec![1.0], Arc::new(|t, y, d| d[0] = -y[0] + if t > 0.7 { 5.0 } else { 0.0 })), 2.0),
         _ => (mk("rhs discontinuous in y", 1, vec![0.0], Arc::new(|_t, y, d| d[0] = if y[0] > 0.5 { -2.0 } else { 1.0 })), 1.0),
     }
 }
-const NPROB: usize = 11;
+const NPROB: usize = 12;
 /// real eigenvalue of the inverse Radau IIA matrix as written in radau.rs (the resonance scene is
 /// only a scene: if the constant differed the run would simply not meet a singular matrix)
 const RADAU_U1: f64 = 3.637_834_252_744_496;
@@ -89,6 +92,12 @@ fn bases() -> Vec<Base> {
     let mut v = vec![];
     for m in M6 {
         for p in 0..NPROB {
+            if p == 11 && !matches!(m, Method::DOPRI5 | Method::DOP853) {
+                // without a stiffness detector the work is legitimately millions of steps (RK23 by stability, the
+                // implicit methods when the differenced Jacobian is made useless by the injected answers: measured
+                // 5.4e6 accepted steps, 1e8 calls, Success) - bounded, but beyond this check's budget of 1e6 calls
+                continue;
+            }
             for backward in [false, true] {
                 for max_steps in [None, Some(40)] {
                     let mins: Vec<Option<f64>> = if crate::run::is_implicit(m) { vec![None, Some(1e-3)] } else { vec![None] };
@@ -150,7 +159,7 @@ fn cfg_of(b: &Base) -> (Prob, Cfg) {
         c.t_eval = Some((0..=6).map(|i| xend * i as f64 / 6.0).collect());
         c.dense = true;
     }
-    c.budget = 1_000_000;
+    c.budget = std::env::var("VERIF_C04_BUDGET").ok().and_then(|v| v.parse().ok()).unwrap_or(1_000_000);
     (p, c)
 }
 
@@ -180,6 +189,9 @@ fn exec(b: &Base, faults: &[Fault], key: &str) -> CaseOut {
     let mut out = CaseOut::default();
     let fdesc: Vec<Value> = faults.iter().map(|f| json!({"at_call": f.at, "answer": KINDS[f.kind].0, "persistent": f.persistent, "during_jacobian_differencing": f.in_jac})).collect();
     let desc = json!({"key": key, "cfg": c.json(&p.name), "faults": fdesc, "outcome": r.outcome_name(), "rhs_calls": r.st.n_ode});
+    if std::env::var("VERIF_DEBUG").is_ok() {
+        println!("DBG c04 {} outcome {} rhs {} jac-rhs {} sol {:?}", key, r.outcome_name(), r.st.n_ode, r.st.n_ode_in_jac, r.sol().map(|s| (s.status, s.t.len(), s.t.last().copied(), s.nstep, s.naccpt, s.nrejct, s.njev, s.nlu)));
+    }
     let mut vs: Vec<(String, String)> = vec![];
     let mut tags = vec![];
     match &r.out {
